@@ -446,6 +446,7 @@ func main() {
 	tagF := parseFile(filepath.Join(repo, "file/handletag.go"))
 	fnFiles["file/handletag.go"] = tagF
 	writeIfChanged(filepath.Join(outDir, "SourceFnsTags.v"), miniGo(fnFiles, [][2]string{{"file/handletag.go", "tagItems_override"}, {"file/handletag.go", "tagItems_format"}}))
+	writeIfChanged(filepath.Join(outDir, "SourceFnsTimeFmt.v"), miniGo(fnFiles, [][2]string{{"valid/init.go", "GetTimeFmt"}}))
 	writeIfChanged(filepath.Join(outDir, "SourceFnsPtr.v"), miniGo(fnFiles, [][2]string{{"valid/common.go", "RemoveValuePtr"}}))
 	writeIfChanged(filepath.Join(outDir, "SourceFnsToStr.v"), miniGo(fnFiles, [][2]string{{"valid/common.go", "ToStr"}}))
 	writeIfChanged(filepath.Join(outDir, "SourceFnsSplit.v"), miniGo(fnFiles, [][2]string{{"valid/common.go", "ValidNamesSplit"}}))
